@@ -239,10 +239,11 @@ Proof.
   assert (Et : (id =? ED25519_ID) || (id =? SECP256R1_ID) || (id =? BLS_ID) = true).
   { rewrite !orb_true_iff, !N.eqb_eq. unfold valid_id in Hid. tauto. }
   rewrite Et. unfold unmarshal_scheme, unmarshal_bls.
-  rewrite (unmarshal_fixed_bytes id pk sg Hp Hs).
-  destruct (id =? BLS_ID) eqn:Eb; [|reflexivity].
-  apply N.eqb_eq in Eb. destruct (Hbls Eb) as (H1 & H2). rewrite Eb in *.
-  cbn [a_pk a_sig]. rewrite H1, H2. reflexivity.
+  destruct (id =? BLS_ID) eqn:Eb.
+  - apply N.eqb_eq in Eb. destruct (Hbls Eb) as (H1 & H2). subst id.
+    rewrite (unmarshal_fixed_bytes BLS_ID pk sg Hp Hs).
+    cbn [a_pk a_sig]. rewrite H1, H2. reflexivity.
+  - apply (unmarshal_fixed_bytes id pk sg Hp Hs).
 Qed.
 
 Lemma parse_auth_injective b1 b2 a :
